@@ -249,6 +249,59 @@ func cvConvert(toks []string, withStart bool, shared *trackaddict.Session) (stri
 	return out, sess
 }
 
+// cvTrueDistance converts a minimal session whose timed lap has two fixes, at the two positions
+// given (as they stand in the log, seven decimals), and compares the distance the conversion
+// accumulates between them with an independent estimate: the great-circle angle between the two
+// positions from 3-D unit vectors, times a radius of curvature of the ellipsoid — every radius of
+// curvature of WGS-84 lies between 6335.4 km (meridian at the equator) and 6399.6 km (pole), so the
+// true geodesic length lies between the angle times those, with half a percent to spare. The
+// oracle table of the conversion cases comes from the geodesic library itself and cannot see an
+// error of that library; this case can.
+func cvTrueDistance(toks []string) string {
+	la, lo, lb, lp := toks[1], toks[2], toks[3], toks[4]
+	text := "Time,UTC Time,Lap,GPS_Update,Latitude,Longitude\n" +
+		"0.000,1000000000.000,0,1," + la + "," + lo + "\n# Lap 0: 00:00:01.000\n" +
+		"1.000,1000000001.000,1,1," + la + "," + lo + "\n2.000,1000000002.000,1,1," + lb + "," + lp + "\n# Lap 1: 00:00:02.000\n" +
+		"3.000,1000000003.000,2,1," + lb + "," + lp + "\n"
+	var got float64
+	cls, _ := classify(func() error {
+		d, err := trackaddict.NewDecoder(strings.NewReader(text))
+		if err != nil {
+			return err
+		}
+		sess, err := d.Decode()
+		if err != nil {
+			return err
+		}
+		conv, err := convert.NewTrackAddict()
+		if err != nil {
+			return err
+		}
+		db, err := conv.LapTimer(sess)
+		if err != nil {
+			return err
+		}
+		if len(db.Laps) != 1 || len(db.Laps[0].Recording.Fixes) != 2 {
+			return fmt.Errorf("shape")
+		}
+		got = float64(db.Laps[0].Recording.Fixes[1].RelativeToStart.Distance)
+		return nil
+	})
+	if cls != "ok" {
+		return cls
+	}
+	f := func(x string) float64 { v, _ := strconv.ParseFloat(x, 64); return v }
+	ang := gcDistLL(f(la), f(lo), f(lb), f(lp))
+	special := ""
+	if math.Abs(f(la)) == 45 || math.Abs(f(lb)) == 45 {
+		special = " lat45=1"
+	}
+	if !(got >= ang*6335439*0.995-0.001 && got <= ang*6399594*1.005+0.001) {
+		return fmt.Sprintf("diff got=%.3f est=%.3f%s", got, ang*6371008.8, special)
+	}
+	return "ok" + special
+}
+
 // quietly runs f and swallows a panic: for conversions that only set the scene.
 func quietly(f func()) {
 	defer func() { recover() }() //nolint: errcheck
@@ -263,6 +316,8 @@ func execCV(_ *config, op string) string {
 		return out
 	case "pred":
 		return cvPredict(toks)
+	case "dist":
+		return cvTrueDistance(toks)
 	case "shift":
 		with, sess := cvConvert(toks, true, nil)
 		if cvField(toks, "S") != "1" {
@@ -600,6 +655,24 @@ func genCV(cfg *config, r *rng, i int, s *sink) string {
 			base = base - (base % 86400) - int64(1+r.intn(20)) // ... -00:00:20 .. -00:00:01 before a midnight
 		}
 	}
+	if (cfg.prop == "C03" || cfg.prop == "") && r.chance(1, 12) {
+		// two positions a metre to a few kilometres apart, anywhere; one time in five one of them lies
+		// on the 45th parallel to the last printed digit (recorded finding: the geodesic library)
+		lat := (r.float01()*2 - 1) * 80
+		lon := (r.float01()*2 - 1) * 179
+		if r.chance(1, 5) {
+			lat = pick(r, []float64{45, -45})
+			s.count("cv.dist.lat45")
+		}
+		d := math.Pow(10, r.float01()*3.7)
+		lat2, lon2 := offsetPoint(lat, lon, r.float01()*360, d, 6371008.8)
+		a, b2, c, d2 := fmt.Sprintf("%.7f", lat), fmt.Sprintf("%.7f", lon), fmt.Sprintf("%.7f", lat2), fmt.Sprintf("%.7f", lon2)
+		if r.bool() {
+			a, b2, c, d2 = c, d2, a, b2
+		}
+		s.count("cv.op.dist")
+		return fmt.Sprintf("dist %s %s %s %s", a, b2, c, d2)
+	}
 	if (cfg.prop == "C11" || cfg.prop == "") && r.chance(1, 6) {
 		text, _ := cvLog(r, s, maxLaps, maxRows+6, true, base)
 		pk := pick(r, []string{"ak", "fb", "nc", "cc", "nk", "pl", "pc"})
@@ -679,6 +752,10 @@ func corpusCV(cfg *config) []string {
 		mk("conv", "-", "def", "Time,UTC Time,GPS_Update,OBD_Update,Engine Speed (RPM) *OBD\n0.000,100.000,1,0,1000\n# Lap 0: 00:00:01.000\n1.000,101.000,1,0,1000\n# Lap 1: 00:00:01.000\n2.000,102.000,1,0,1000\n"),
 		// interpolation between two fresh readings
 		mk("conv", "-", "def", "Time,UTC Time,GPS_Update,OBD_Update,Engine Speed (RPM) *OBD\n0.000,100.000,1,1,1000\n# Lap 0: 00:00:01.000\n1.000,101.000,1,0,1000\n1.500,101.500,1,0,1000\n# Lap 1: 00:00:01.000\n2.000,102.000,1,1,5000\n"),
+		// recorded finding: a fix on the 45th parallel to the last printed digit (the geodesic library)
+		"dist 44.9999000 7.0000000 45.0000000 7.0001000",
+		"dist 45.0000000 7.0000000 45.0000000 7.0001000",
+		"dist 44.9999000 7.0000000 45.0000001 7.0001000",
 		// laps counted from 1, and laps with a number missing (a lap deleted in the app)
 		mk("conv", "-", "def", "Time,UTC Time,GPS_Update\n0.000,100.000,1\n# Lap 1: 00:00:01.000\n1.000,101.000,1\n# Lap 2: 00:00:01.000\n2.000,102.000,1\n# Lap 3: 00:00:01.000\n3.000,103.000,1\n"),
 		mk("conv", "-", "def", "Time,UTC Time,GPS_Update\n0.000,100.000,1\n# Lap 0: 00:00:01.000\n1.000,101.000,1\n# Lap 1: 00:00:01.000\n2.000,102.000,1\n# Lap 3: 00:00:01.000\n3.000,103.000,1\n# Lap 4: 00:00:01.000\n4.000,104.000,1\n"),
